@@ -220,6 +220,41 @@ Fixpoint encodable (v : value) : bool :=
   | _ => true
   end.
 
+(* The values the driver API can store: Go ranges; keys and regex parts without
+   NUL; ObjectIDs of 12 bytes; regex options already sorted (and ASCII: Go
+   sorts runes, the model bytes); no EMPTY binary of subtype 2.  lungo passes
+   every incoming document through bsonkit.Transform (Marshal + Unmarshal), so
+   stored values always satisfy the last two. *)
+Fixpoint codec_ok (v : value) : bool :=
+  match v with
+  | VNull => true
+  | VMissing => false
+  | VInt32 z => (- two31 <=? z) && (z <? two31)
+  | VInt64 z => (- two63 <=? z) && (z <? two63)
+  | VDouble b => (0 <=? b) && (b <? two64)
+  | VDecimal h l => (0 <=? h) && (h <? two64) && (0 <=? l) && (l <? two64)
+  | VString _ => true
+  | VDoc d =>
+      (fix go (d : list (string * value)) : bool :=
+         match d with
+         | [] => true
+         | (k, x) :: t => no_nul k && codec_ok x && go t
+         end) d
+  | VArr a =>
+      (fix go (a : list value) : bool :=
+         match a with
+         | [] => true
+         | x :: t => codec_ok x && go t
+         end) a
+  | VBin st data =>
+      (0 <=? st) && (st <? 256) && negb ((st =? 2) && (match data with EmptyString => true | _ => false end))
+  | VOid b => Nat.eqb (List.length (bytes_of_string b)) 12
+  | VBool _ => true
+  | VDate ms => (- two63 <=? ms) && (ms <? two63)
+  | VTs t i => (0 <=? t) && (t <? two32) && (0 <=? i) && (i <? two32)
+  | VRegex p o => no_nul p && no_nul o && String.eqb (sort_opts o) o && all_ascii7 o
+  end.
+
 (* ------------------------------------------------------------------ *)
 (* Decoder (bsonrw.valueReader as driven by the bson.D decoder).        *)
 
